@@ -2,7 +2,7 @@
    Statements only; every proof is `exact <lemma>`.  gen_col / gen_lineno / gen_line are regenerated from
    pyparsing/util.py on every run (Gen/GenLoc.v), so these theorems are about what the code says now. *)
 From Coq Require Import List ZArith NArith Bool.
-From PP Require Import Model.Str Gen.GenLoc Proofs.LocProofs Proofs.TabProofs.
+From PP Require Import Model.Str Model.Results Model.Prog Model.Core Model.Entry Gen.GenLoc Proofs.LocProofs Proofs.TabProofs Proofs.LocParse Proofs.ScanProofs.
 Import ListNotations.
 Local Open Scope Z_scope.
 
@@ -36,3 +36,48 @@ Proof. exact (fun s => expandtabs_go_id s 0). Qed.
 
 Theorem C14_expandtabs_length : forall s, (length s <= length (expandtabs s))%nat.
 Proof. exact (fun s => expandtabs_go_length s 0). Qed.
+
+(* ---- parse level: the locations the parser reports index the string that was parsed ---- *)
+
+(* parse_string / scan_string work on the tab-expanded copy unless parse_with_tabs() was called: every `_parse` call they
+   make carries that string (Model/Entry.v; the call `instring.expandtabs()` is re-read from the source by GenEntry) *)
+Theorem C14_parsed_string : forall dw root keeptabs input parse_all,
+  exists k, parse_string dw root keeptabs input parse_all =
+            DCall (mkargs root (if keeptabs then input else expandtabs input) 0 true true) k.
+Proof. intros. eexists. reflexivity. Qed.
+
+(* a token element that returns the matched text (Literal, Word on either path, CharsNotIn, White) returns exactly the
+   slice of the parsed string from the location it was tried at to the location it returns *)
+Theorem C14_token_slice : forall a t s loc l m,
+  text_token t = true -> tok_impl a t s loc = IOk l (RStr m) -> m = slice_ s loc l.
+Proof. exact token_slice. Qed.
+
+(* the location handed to a parse action is the location after pre-parse at which the element was tried *)
+Theorem C14_action_loc : forall e d pl l r ac acs,
+  acts (attrs_of e) = ac :: acs -> d = true ->
+  finish e d pl l r =
+  match run_actions (attrs_of e) (ac :: acs) pl
+          (pr_init (post_parse e r) (rsname (attrs_of e)) (aslist (attrs_of e)) (modalr (attrs_of e))) with
+  | inl rt' => Ret (Ok l rt')
+  | inr x => Ret (Err x)
+  end.
+Proof. exact action_loc. Qed.
+
+(* Located: locn_start is the location the Located element was tried at, locn_end the location its expression returned *)
+Theorem C14_located : forall (G : env) rec a i c s pl d l r,
+  rec (mkargs c s pl d false) = Some (Ok l r) -> rsname a = None ->
+  exists rt, (run rec (impl G (Enh a i ELocated c) s pl d (step_k (Enh a i ELocated c) s d pl)) =
+              run rec (finish (Enh a i ELocated c) d pl l (RPR rt))) /\
+             toks rt = [TInt (Z.of_nat pl); TPR r; TInt (Z.of_nat l)].
+Proof. exact located_locs. Qed.
+
+(* scan_string's (start, end): a direct parse begun at start ends at end (C08_scan_sound_ordered, restated on locations) *)
+Theorem C14_scan_locs : forall rec root keeptabs input maxm always_skip res fin,
+  plainpre root ->
+  drun rec (scan_string root keeptabs input maxm false always_skip) = Some (res, fin) ->
+  Forall (fun m => match m with (t, st, en) =>
+            rec (mkargs root (if keeptabs then input else expandtabs input) st true false) = Some (Ok en t) end) res.
+Proof.
+  intros rec root kt input maxm al res fin Hp H. unfold scan_string in H.
+  apply scan_loop_spec in H; [|exact Hp]. destruct H as (new & -> & _ & Ha & _). exact Ha.
+Qed.
